@@ -613,6 +613,113 @@ theorem others_by_key (o : Opts) (fn : Fn V) (pre : Path) (others' others : List
     simp only [applyEntries, leafArgs_permTop _ key _ _ h, nestedOthers_permTop _ item key _ _ h,
       others_by_key o fn pre others' others h rest out]
 
+/-! ## lazy stacks -/
+
+theorem applyMembers_spec (o : Opts) (fn : Fn V) (pre : Path) :
+    ∀ (ms : List (Tree V)) (oss : List (List (Tree V))) (outs : Option (List (Tree V))) (rs : List (Option (Tree V))),
+      applyMembers o fn pre ms oss outs = .ok rs →
+      rs.length = ms.length ∧ ms.length = oss.length ∧
+      ∀ (i : Nat) (m : Tree V) (os : List (Tree V)), ms[i]? = some m → oss[i]? = some os →
+        ∃ r, rs[i]? = some r ∧ applyNode o fn pre m os (outs.bind (fun l => l[i]?)) = .ok r
+  | [], [], outs, rs, h => by simp [applyMembers] at h; subst h; simp
+  | [], _ :: _, _, _, h => by unfold applyMembers at h; cases h
+  | _ :: _, [], _, _, h => by unfold applyMembers at h; cases h
+  | m0 :: ms, os0 :: oss, outs, rs, h => by
+    simp only [applyMembers] at h
+    cases h0 : applyNode o fn pre m0 os0 (outHead outs) with
+    | error e => simp [h0] at h
+    | ok r0 =>
+      simp only [h0] at h
+      cases hr : applyMembers o fn pre ms oss (outTail outs) with
+      | error e => simp [hr] at h
+      | ok rs' =>
+        simp only [hr] at h; injection h with h; subst h
+        obtain ⟨h1, h2, h3⟩ := applyMembers_spec o fn pre ms oss _ rs' hr
+        refine ⟨by simp [h1], by simp [h2], fun i m os hm hos => ?_⟩
+        cases i with
+        | zero =>
+          simp at hm hos; subst hm; subst hos
+          refine ⟨r0, by simp, ?_⟩
+          have : (outs.bind (fun l => l[0]?)) = (outHead outs) := by
+            cases outs with
+            | none => rfl
+            | some l => cases l <;> simp [outHead]
+          rw [this]; exact h0
+        | succ j =>
+          simp at hm hos
+          obtain ⟨r, hr1, hr2⟩ := h3 j m os hm hos
+          refine ⟨r, by simpa using hr1, ?_⟩
+          have : (outs.bind (fun l => l[j + 1]?)) =
+              ((outTail outs).bind (fun l => l[j]?)) := by
+            cases outs with
+            | none => rfl
+            | some l => cases l <;> simp [outTail]
+          rw [this]; exact hr2
+
+theorem allSome_get : ∀ (rs : List (Option (Tree V))) (ts : List (Tree V)), allSome rs = some ts →
+    ts.length = rs.length ∧ ∀ (i : Nat) (r : Option (Tree V)), rs[i]? = some r → ∃ t, r = some t ∧ ts[i]? = some t
+  | [], ts, h => by simp [allSome] at h; subst h; simp
+  | none :: _, _, h => by simp [allSome] at h
+  | some t0 :: rest, ts, h => by
+    simp only [allSome] at h
+    cases hr : allSome rest with
+    | none => simp [hr] at h
+    | some ts' =>
+      simp [hr] at h; subst h
+      obtain ⟨h1, h2⟩ := allSome_get rest ts' hr
+      refine ⟨by simp [h1], fun i r hi => ?_⟩
+      cases i with
+      | zero => simp at hi; subst hi; exact ⟨t0, rfl, by simp⟩
+      | succ j => simp at hi; simpa using h2 j r hi
+
+/-- **lazy stack apply is member-wise with the prefix forwarded**: a fresh (not in-place) result of
+`LazyStackedTensorDict._apply_nest` is the stack of the results of `_apply_nest` on every member, each called with the
+*same prefix* `pre` (so `nested_keys=True` hands the function the full path also below a nested lazy stack), with the
+operands' slices of the same index along self's stack dim, and with `out`'s member of the same index. -/
+theorem lazy_apply_memberwise (o : Opts) (fn : Fn V) (pre : Path) (members : List (Tree V))
+    (others : List (List (Tree V))) (outs : Option (List (Tree V))) (R : List (Tree V)) (hin : o.inplace = false)
+    (h : applyLazy o fn pre members others outs = .ok (some R)) :
+    R.length = members.length ∧
+    ∀ (i : Nat) (m : Tree V) (os : List (Tree V)), members[i]? = some m → others[i]? = some os →
+      ∃ t, R[i]? = some t ∧
+        applyNode { o with names := .noDefault, batchSize := none } fn pre m os (outs.bind (fun l => l[i]?)) = .ok (some t) := by
+  unfold applyLazy at h
+  have hc1 : (o.inplace && overridden o) = false := by simp [hin]
+  simp only [hc1, Bool.false_eq_true, ↓reduceIte] at h
+  cases ha : applyMembers { o with names := .noDefault, batchSize := none } fn pre members others outs with
+  | error e => simp [ha] at h
+  | ok results =>
+    simp only [ha] at h
+    obtain ⟨h1, h2, h3⟩ := applyMembers_spec _ fn pre members others outs results ha
+    by_cases hf : (allNone results && (decide (o.filterEmpty = none) || decide (o.filterEmpty = some true))) = true
+    · simp [hf] at h
+    · simp only [hf, Bool.false_eq_true, ↓reduceIte] at h
+      have hin' : (o.inplace = true) = False := by simp [hin]
+      simp only [hin', ↓reduceIte] at h
+      by_cases hemp : results.isEmpty = true
+      · simp only [hemp, ↓reduceIte] at h
+        injection h with h; injection h with h; subst h
+        have : results = [] := by simpa using hemp
+        subst this
+        have hm : members.length = 0 := by simpa using h1.symm
+        refine ⟨by simp [hm], fun i m os hmi _ => ?_⟩
+        have : members = [] := List.length_eq_zero_iff.mp hm
+        subst this; simp at hmi
+      · simp only [hemp, Bool.false_eq_true, ↓reduceIte] at h
+        by_cases han : allNone results = true
+        · simp [han] at h
+        · simp only [han, Bool.false_eq_true, ↓reduceIte] at h
+          cases hs : allSome results with
+          | none => simp [hs] at h
+          | some ts =>
+            simp only [hs] at h; injection h with h; injection h with h; subst h
+            obtain ⟨hl, hg⟩ := allSome_get results ts hs
+            refine ⟨by rw [hl, h1], fun i m os hmi hoi => ?_⟩
+            obtain ⟨r, hr1, hr2⟩ := h3 i m os hmi hoi
+            obtain ⟨t, e, ht⟩ := hg i r hr1
+            subst e
+            exact ⟨t, ht, hr2⟩
+
 /-! ## metadata -/
 
 /-- **metadata_rules** (result created by the call, i.e. neither `inplace` nor `out`): batch size and device are
@@ -672,6 +779,47 @@ theorem metadata_rules (o : Opts) (fn : Fn V) (pre : Path) (m : Meta) (es : Entr
         · cases h
         · injection h with h; injection h with h
           exact ⟨rm, res, by rw [← h, e], rest⟩
+
+/-- **written_entries_validated**: on the validated path (`apply` / `named_apply`, i.e. not `checked`) with a `device`
+override, EVERY entry the function produced a value for -- whether a new value or the very item it was handed -- is
+stored after `_validate_value`: the result is on the requested device and so is each nested tensordict written. -/
+theorem written_entries_validated (o : Opts) (fn : Fn V) (pre : Path) (m : Meta) (es : Entries V)
+    (others : List (Tree V)) (r : Tree V) (d : String) (oc : List (String × Option (Tree V)))
+    (hin : o.inplace = false) (hck : o.checked = false) (hdev : o.device = .given (some d))
+    (hnd : es.keys.Nodup) (hoc : applyEntries o fn pre es others none = .ok oc)
+    (h : applyNode o fn pre (.node m es) others none = .ok (some r)) :
+    ∃ rm res, r = .node rm res ∧ rm.device = some d ∧
+      ∀ k t, List.lookup k oc = some (some t) → ∃ t', res.get? k = some t' ∧ Tree.onDevice d t' := by
+  simp only [applyNode, startResult, hin, Bool.false_eq_true, ↓reduceIte, hoc, assemble, hck] at h
+  have hkeys := applyEntries_keys o fn pre es others none oc hoc
+  have hfd : ∃ fm, (makeResult o m : Tree V) = .node fm .nil ∧ fm.device = some d := by
+    refine ⟨_, rfl, ?_⟩; simp [hdev]
+  obtain ⟨fm, hfm, hfdev⟩ := hfd
+  cases hw : writeOutcomes false (makeResult o m) none oc with
+  | error e => simp [hw] at h
+  | ok r0 =>
+    simp only [hw] at h
+    rcases writeOutcomes_start_none false (makeResult o m) oc r0 hw with ⟨e, hall⟩ | hw'
+    · subst e
+      refine ⟨fm, .nil, ?_, hfdev, fun k t hl => ?_⟩
+      · split at h
+        · cases h
+        · split at h
+          · cases h
+          · injection h with h; injection h with h; rw [← h]; simpa using hfm
+      · have := lookup_none_of_all_none oc hall k
+        rw [hl] at this; simp at this
+    · rw [hfm] at hw'
+      obtain ⟨m', es', e, h1, _⟩ := writeOutcomes_onDevice d (makeResult o m) oc fm .nil r0 hfdev (by rw [hkeys]; exact hnd) (by rw [hfm]; exact hw')
+      subst e
+      obtain ⟨_, _, e2, _, hd2, _, _⟩ := writeOutcomes_meta false (makeResult o m) oc fm .nil _ (by rw [hfm]; exact hw')
+      injection e2 with e2; injection e2 with e2m e2e; subst e2m
+      refine ⟨m', es', ?_, by rw [hd2, hfdev], h1⟩
+      split at h
+      · cases h
+      · split at h
+        · cases h
+        · injection h with h; injection h with h; rw [← h]; rfl
 
 /-- lock propagation of the front-ends: a result is locked by the call iff `propagate_lock` and self is locked
 (and not in place) -/
